@@ -61,6 +61,7 @@ def playback(spec, ws):
     cmd = ["cargo", "kani", "-Z", "stubbing", "-Z", "unstable-options", "-Z", "concrete-playback",
            "--concrete-playback=inplace", "--exact", "--harness", "h::generated::" + spec.name]
     cmd += [f for f in runner.GROUP_FLAGS[spec.group] if f != "--no-assertion-reach-checks"]
+    cmd += runner.CBMC_ARGS
     p = subprocess.run(cmd, cwd=ws, stdout=subprocess.PIPE, stderr=subprocess.STDOUT, env=_env(),
                        timeout=(spec.timeout or 900) + 600)
     txt = p.stdout.decode(errors="replace")
